@@ -11,7 +11,7 @@ Ltac crush_step H :=
   try (injection H as <-).
 
 Ltac open_step H :=
-  unfold step, step_core, stop_done, fail_boot, boot_ok, reload_finish, transition, transition_or_error in H.
+  unfold step, step_core, stop_done, finish_stop, fail_boot, boot_ok, reload_finish, transition, transition_or_error in H.
 
 (* ------------------------------------------------------------------ crash freedom (C19) *)
 
@@ -124,6 +124,15 @@ Proof.
   injection H as <-. split; [reflexivity|repeat split].
 Qed.
 
+Lemma errold_enters_pre sl validated mux_ok s i s' :
+  kpc s = KFetch -> holder s = Some (ByReload i) ->
+  step sl validated mux_ok s (LFetch CbErrOld) = Some s' ->
+  kpc s' = KUnchanged /\ servers_untouched s s'.
+Proof.
+  intros Ek Eh H. open_step H. rewrite Ek, Eh in H. destruct (crashed s); [discriminate|].
+  injection H as <-. split; [reflexivity|repeat split].
+Qed.
+
 Lemma changed_takes_new sl validated mux_ok s i c s' :
   kpc s = KFetch -> holder s = Some (ByReload i) ->
   go_config_equal c (cur s) = false ->
@@ -132,6 +141,14 @@ Lemma changed_takes_new sl validated mux_ok s i c s' :
 Proof.
   intros Ek Eh Ee H. open_step H. rewrite Ek, Eh, Ee in H. destruct (crashed s); [discriminate|].
   injection H as <-. split; reflexivity.
+Qed.
+
+(* the continuations of the mutex-protected sections are total for a holder *)
+Lemma stop_done_some sl s r v o : holder s <> None -> stop_done sl (with_server s v o) r <> None.
+Proof.
+  unfold stop_done. cbn [holder with_server]. destruct (holder s) as [[|i]|]; [| |contradiction]; intros _.
+  - destruct sl; discriminate.
+  - destruct r; discriminate.
 Qed.
 
 Section Protocol.
@@ -270,6 +287,89 @@ Section Protocol.
     unfold HttpServer.step, step_core. rewrite Hc, Hk, Es, Eo, Nat.eqb_refl. split; [reflexivity|discriminate].
   Qed.
 
+  (* ---------------------------------------------------------------- the served configuration is duplicate-free:
+     the pure half of C13 (Equal is right whenever the ACTIVE configuration has no duplicate path) composes with the
+     protocol.  [mux_sound]: the ServeMux refuses a pattern list with a repeated pattern (it does: registering the
+     same pattern twice panics) - an assumption on the oracle, stated where it is used. *)
+  Definition mux_sound : Prop := forall ps, mux_ok ps = true -> NoDup ps.
+
+  (* while a Reload is about to call / has just called the callback, the configuration it compares against is the one
+     the live server was created from, which the mux accepted *)
+  Lemma fetch_active_mux s i :
+    Inv s -> holder s = Some (ByReload i) -> kpc s = KFetch \/ kpc s = KUnchanged ->
+    mux_ok (map rpath (routes (cur s))) = true.
+  Proof.
+    intros I Eh Ek. pose proof (i_rel _ _ _ I i Eh) as Ef.
+    destruct (i_has _ _ _ I) as (j & Hs & sv & Hn & Hsh); [right; left; split; [exact Ef|tauto]|].
+    assert (Hc : s_cfg sv = cur s).
+    { eapply (i_cfg _ _ _ I); eauto. intros [E _]. destruct Ek; congruence. }
+    rewrite <- Hc. eapply (i_mux _ _ _ I); eauto.
+  Qed.
+
+  Lemma mux_nodup rs : mux_sound -> mux_ok (map rpath rs) = true -> paths_nodup rs = true.
+  Proof. intros Hm H. apply paths_nodup_iff. now apply Hm. Qed.
+
+  (* the lemma the audit (M9) asked for: a served configuration is path-duplicate-free *)
+  Theorem running_paths_nodup c0 ls s :
+    mux_sound -> no_foreign ls -> run step (init c0) ls = Some s ->
+    fsm_st s = FRunning -> (stop_locked = true \/ rpc s <> RInStop) ->
+    paths_nodup (routes (cur s)) = true.
+  Proof.
+    intros Hm Hn Hr Hf Hx. apply (mux_nodup _ Hm).
+    destruct Hx as [Hl|Hp].
+    - destruct (running_serves_repaired c0 ls s Hl Hn Hr Hf) as (_ & _ & _ & _ & _ & _ & _ & E & _). exact E.
+    - destruct (running_serves c0 ls s Hn Hr Hf Hp) as (_ & _ & _ & _ & _ & _ & _ & E & _). exact E.
+  Qed.
+
+  (* NO STALE SERVER: whenever a Reload takes the "unchanged" path on a delivered configuration c - in any reachable
+     state, after any history - c really has the active configuration's address, timeouts and route SET, so the
+     server left running serves exactly what c asks for *)
+  Theorem unchanged_means_equivalent c0 ls s i c s' :
+    mux_sound -> no_foreign ls -> run step (init c0) ls = Some s ->
+    kpc s = KFetch -> holder s = Some (ByReload i) ->
+    step s (LFetch (CbCfg c)) = Some s' -> kpc s' = KUnchanged ->
+    (addr c = addr (cur s) /\ drain c = drain (cur s) /\ read_to c = read_to (cur s) /\
+     write_to c = write_to (cur s) /\ idle_to c = idle_to (cur s)) /\
+    (forall x, In x (routes c) <-> In x (routes (cur s))) /\ paths_nodup (routes c) = true.
+  Proof.
+    intros Hm Hn Hr Ek Eh H Ek'.
+    pose proof (inv_reachable stop_locked validated mux_ok c0 ls s Hn Hr) as I.
+    pose proof (mux_nodup _ Hm (fetch_active_mux s i I Eh (or_introl Ek))) as Hnd.
+    assert (He : go_config_equal c (cur s) = true).
+    { open_step H. rewrite Ek, Eh in H. destruct (crashed s); [discriminate|].
+      destruct (go_config_equal c (cur s)); [reflexivity|]. injection H as <-. cbn in Ek'. discriminate. }
+    exact (config_equal_never_stale go_names_key c (cur s) Hnd He).
+  Qed.
+
+  (* with a duplicate-free configuration every path is answered by its own route *)
+  Lemma route_of_path_own rs : paths_nodup rs = true -> forall r, In r rs -> route_of_path rs (rpath r) = Some (rname r).
+  Proof.
+    induction rs as [|x rs IH]; intros Hnd r Hin; [contradiction|].
+    cbn [paths_nodup] in Hnd. apply andb_true_iff in Hnd as [Hx Hnd]. apply negb_true_iff in Hx.
+    cbn [route_of_path]. destruct Hin as [->|Hin].
+    - now rewrite str_eqb_refl.
+    - destruct (str_eqb (rpath x) (rpath r)) eqn:E.
+      + exfalso. apply str_eqb_eq in E. rewrite E in Hx.
+        assert (path_in (rpath r) rs = true) by (apply path_in_iff; apply in_map; exact Hin). congruence.
+      + now apply IH.
+  Qed.
+
+  (* ... and, the mux refusing duplicate patterns, "its own route" is literal: the table the harness must observe maps
+     every configured path to the name of the route that carries it *)
+  Theorem running_observable_own c0 ls s :
+    mux_sound -> stop_locked = true -> no_foreign ls -> run step (init c0) ls = Some s ->
+    crashed s = false -> fsm_st s = FRunning ->
+    step s (LObsServe (addr (cur s)) (map (fun r => (rpath r, Some (rname r))) (routes (cur s)))) = Some s.
+  Proof.
+    intros Hm Hl Hn Hr Hc Hf.
+    pose proof (inv_reachable stop_locked validated mux_ok c0 ls s Hn Hr) as I.
+    assert (Hp : rpc s <> RInStop) by (intros E; exact (i_locked _ _ _ I Hl E Hf)).
+    destruct (running_observable c0 ls s Hn Hr Hc Hf Hp) as [_ H].
+    assert (Hnd : paths_nodup (routes (cur s)) = true) by (apply (running_paths_nodup c0 ls s); auto).
+    rewrite <- H. f_equal. f_equal. apply map_ext_in. intros r Hin. f_equal.
+    symmetry. now apply route_of_path_own.
+  Qed.
+
   (* once Run has returned no server created by this runner is bound *)
   Theorem released c0 ls s :
     no_foreign ls -> run step (init c0) ls = Some s ->
@@ -314,16 +414,11 @@ Section Protocol.
     - destruct (Hrel KUnchanged eq_refl) as [i Eh]; auto. exists LUnchanged. rewrite ?Ek. unfold reload_finish. rewrite ?Eh.
       split; [reflexivity|discriminate].
     - destruct (once_done s) eqn:Eo.
-      + exists LStopSkip. rewrite ?Ek, ?Eo. unfold stop_done. cbn [holder with_server].
-        destruct (holder s) as [[|i]|]; [| |contradiction]; split; try reflexivity;
-          [destruct (fsm_allowed _ _)|]; discriminate.
+      + exists LStopSkip. rewrite ?Ek, ?Eo. split; [reflexivity|]. now apply stop_done_some.
       + destruct (server s) as [sid|] eqn:Es.
         * exists (LStopCallS sid). rewrite ?Ek, ?Es, ?Eo, ?Nat.eqb_refl. split; [reflexivity|discriminate].
-        * exists LStopSkip. rewrite ?Ek, ?Eo, ?Es. unfold stop_done. cbn [holder with_server].
-          destruct (holder s) as [[|i]|]; [| |contradiction]; split; try reflexivity; discriminate.
-    - exists (LShutdownRet sid SOk). rewrite ?Ek, ?Nat.eqb_refl. unfold stop_done. cbn [holder with_server].
-      destruct (holder s) as [[|i]|]; [| |contradiction]; split; try reflexivity;
-        [destruct (fsm_allowed _ _)|]; discriminate.
+        * exists LStopSkip. rewrite ?Ek, ?Eo, ?Es. split; [reflexivity|]. now apply stop_done_some.
+    - exists (LShutdownRet sid STimeout). cbn [sres_allowed]. rewrite ?Ek, ?Nat.eqb_refl. split; [reflexivity|]. now apply stop_done_some.
     - destruct (new_config_ok validated mux_ok (routes (cur s))) eqn:En.
       + destruct (mux_ok (map rpath (routes (cur s)))) eqn:Em.
         * exists (LBootCreate (length (servers s)) (cur s)). rewrite ?Ek, ?En, ?Em, ?Nat.eqb_refl, ?config_eqb_refl.
@@ -349,7 +444,7 @@ Section Protocol.
     - destruct (i_probe _ _ _ I sid) as (sv & Hn & Hsh); [auto|].
       destruct (i_live _ _ _ I sid) as [Es Eo]; [exists sv; auto|].
       exists (LCleanupCall sid). rewrite ?Ek, ?Es, ?Eo, !Nat.eqb_refl. split; [reflexivity|discriminate].
-    - exists (LShutdownRet sid SOk). rewrite ?Ek, ?Nat.eqb_refl. unfold fail_boot. cbn [holder with_server].
+    - exists (LShutdownRet sid STimeout). cbn [sres_allowed]. rewrite ?Ek, ?Nat.eqb_refl. unfold fail_boot. cbn [holder with_server].
       destruct (holder s) as [[|i]|]; [| |contradiction]; split; try reflexivity; discriminate.
     - destruct (Hrel KFinish eq_refl) as [i Eh]; auto. exists LFinish. rewrite ?Ek. unfold reload_finish. rewrite ?Eh.
       split; [reflexivity|discriminate].
@@ -374,8 +469,16 @@ Section Protocol.
       + apply crit_progress; auto. congruence.
       + exists LRunLockStop. unfold HttpServer.step, step_core. rewrite Hc, Er, Eh. split; [reflexivity|discriminate].
     - apply crit_progress; auto. rewrite (i_rpc _ _ _ I); [discriminate|auto].
+    - exists LRunFinishStop. unfold HttpServer.step, step_core. rewrite Hc, Er. split; [reflexivity|discriminate].
   Qed.
 End Protocol.
+
+(* an oracle that refuses exactly the lists with a repeated pattern satisfies [mux_sound] (non-vacuity of the hypothesis) *)
+Definition nodup_oracle (ps : list str) : bool := paths_nodup (map (fun p => {| rname := []; rpath := p |}) ps).
+Lemma nodup_oracle_sound : mux_sound nodup_oracle.
+Proof.
+  intros ps H. unfold nodup_oracle in H. apply paths_nodup_iff in H. rewrite map_map in H. cbn in H. now rewrite map_id in H.
+Qed.
 
 (* lc.Stop returns only after Run's deferred done() *)
 Lemma stop_ret_after_run sl validated mux_ok s j s' :
@@ -400,6 +503,14 @@ Definition reload_failing (s : state) (l : label) : bool :=
   | LBootReject => true                          (* NewConfig rejected the configuration *)
   | _ => false
   end.
+
+Lemma errold_enters sl validated mux_ok s i s' :
+  kpc s = KFetch -> holder s = Some (ByReload i) ->
+  step sl validated mux_ok s (LFetch CbErrOld) = Some s' ->
+  kpc s' = KUnchanged /\ servers_untouched s s' /\ reload_failing s (LFetch CbErrOld) = false.
+Proof.
+  intros Ek Eh H. destruct (errold_enters_pre sl validated mux_ok s i s' Ek Eh H) as [A B]. auto.
+Qed.
 
 (* every way a Reload gives up the mutex: a failure (state Error), or the final Transition(Running) *)
 Theorem visible_step sl validated mux_ok s l s' i :
